@@ -58,9 +58,11 @@ type wrapSrv struct {
 	inner   httpserver.HttpServer
 	cfg     int
 	lasDone atomic.Bool // ListenAndServe has returned: this server holds no listener any more
+	lasCall atomic.Bool // ListenAndServe has been entered
 }
 
 func (w *wrapSrv) ListenAndServe() error {
+	w.lasCall.Store(true)
 	err := w.inner.ListenAndServe()
 	w.lasDone.Store(true)
 	if err == nil || errors.Is(err, http.ErrServerClosed) {
@@ -159,6 +161,10 @@ type hist struct {
 	foreignNow map[string]bool // canonical addresses the harness itself holds bound (guarded by mu)
 	envNoise   string
 	portNoise  int
+	censusObs  int
+	initIdx    int
+	baseServe  int
+	baseOther  int
 	props     []string
 	parked    bool
 	parksHit  int
@@ -290,6 +296,17 @@ func (h *hist) realCfg(c cfgSpec) *httpserver.Config {
 func (h *hist) creator(addr string, handler http.Handler, cfg *httpserver.Config) httpserver.HttpServer {
 	got := cfgSpec{Addr: h.canon[addr], Drain: int64(cfg.DrainTimeout), Read: int64(cfg.ReadTimeout),
 		Write: int64(cfg.WriteTimeout), Idle: int64(cfg.IdleTimeout)}
+	var live httpserver.HttpServer
+	if h.sc.Kind != "fake" {
+		// the server that will really serve: its own address and timeouts are what counts ("serving exactly the
+		// new configuration"), not only the Config the hook is handed
+		live = httpserver.DefaultServerCreator(addr, handler, cfg)
+		if hs, ok := live.(*http.Server); ok {
+			got.Addr = h.canon[hs.Addr]
+			got.Read, got.Write, got.Idle = int64(hs.ReadTimeout), int64(hs.WriteTimeout), int64(hs.IdleTimeout)
+			handler = hs.Handler
+		}
+	}
 	if got.Addr == "" {
 		got.Addr = "?" + addr
 	}
@@ -313,7 +330,7 @@ func (h *hist) creator(addr string, handler http.Handler, cfg *httpserver.Config
 		}
 		w.inner = f
 	} else {
-		w.inner = httpserver.DefaultServerCreator(addr, handler, cfg)
+		w.inner = live
 	}
 	h.servers = append(h.servers, w)
 	h.mu.Unlock()
@@ -401,6 +418,28 @@ func (h *hist) snapshot(quiet bool) string {
 	if quiet && !h.parked && h.rec.WaitQuiescent(300*time.Millisecond) {
 		h.rec.Emit("QQ")
 		h.quiesced++
+		// C18: the goroutines the library created on the runner's behalf, by creating function
+		serve, otherN, other := libCensus()
+		// goroutines an EARLIER history of this process leaked are that history's finding, not this one's
+		serve -= h.baseServe
+		if otherN <= h.baseOther {
+			other = nil
+		}
+		h.rec.Emit("CN%d", serve)
+		h.censusObs++
+		returned := false
+		select {
+		case <-h.runDone:
+			returned = true
+		default:
+		}
+		if returned {
+			h.prop("c18-clean", serve == 0 && len(other) == 0, "after Run() returned, at quiescence: %d serve goroutines created by boot(), others: %v",
+				serve, other)
+		} else {
+			h.prop("c18-bounded", serve <= 1 && len(other) == 0, "at quiescence (Run not returned): %d serve goroutines created by boot() after %d server creations, others: %v",
+				serve, len(h.servers), other)
+		}
 	}
 	st := h.runner.GetState()
 	h.rec.Emit("ST%d", stateCode[st])
@@ -455,6 +494,21 @@ func (h *hist) snapshot(quiet bool) string {
 		}
 	}
 	return st
+}
+
+// libCensus counts the live goroutines the library created: serve goroutines (creator (*Runner).boot) and others.
+func libCensus() (serve, otherN int, other []string) {
+	for fn, n := range director.CreatedByLibrary() {
+		switch {
+		case strings.HasPrefix(fn, "runnables/httpserver.(*Runner).boot"):
+			serve += n
+		case strings.HasPrefix(fn, "runnables/httpserver") || strings.HasPrefix(fn, "internal/finitestate") ||
+			strings.HasPrefix(fn, "supervisor/lifecycle"):
+			otherN += n
+			other = append(other, fmt.Sprintf("%s=%d", fn, n))
+		}
+	}
+	return
 }
 
 func (h *hist) waitState(d time.Duration, pred func(string) bool) string {
@@ -554,8 +608,35 @@ func (h *hist) variant(kind string, r *prng.R) (string, cfgSpec) {
 		default:
 			c.Routes = c.Routes[:1]
 		}
-	case "repath":
-		c.Routes[0].Path = map[string]string{"/r1": "/r4", "/r4": "/r1", "/r2": "/r4", "/r3": "/r4"}[c.Routes[0].Path]
+	case "swap": // two routes trade their paths: same names, same paths, different pairing
+		if len(c.Routes) >= 2 {
+			c.Routes[0].Path, c.Routes[1].Path = c.Routes[1].Path, c.Routes[0].Path
+		} else {
+			c.Routes = append(c.Routes, rt{"n2", "/r2"})
+		}
+	case "zeroto": // timeouts switched off
+		if c.Read == 0 && c.Write == 0 && c.Idle == 0 {
+			c.Read, c.Write, c.Idle = int64(5*time.Second), int64(5*time.Second), int64(30*time.Second)
+		} else {
+			c.Read, c.Write, c.Idle = 0, 0, 0
+		}
+	case "zeroone": // one timeout switched off
+		if c.Write == 0 {
+			c.Write = int64(5 * time.Second)
+		} else {
+			c.Write = 0
+		}
+	case "repath": // the first route moves to a path no route uses
+		used := map[string]bool{}
+		for _, r := range c.Routes {
+			used[r.Path] = true
+		}
+		for _, p := range pathUniverse {
+			if !used[p] {
+				c.Routes[0].Path = p
+				break
+			}
+		}
 	case "timeout":
 		c.Read += int64(time.Second)
 	case "idle":
@@ -576,6 +657,7 @@ func (h *hist) variant(kind string, r *prng.R) (string, cfgSpec) {
 func (h *hist) run() {
 	h.rec = &director.Recorder{}
 	h.ph = &director.ParkHandler{}
+	h.baseServe, h.baseOther, _ = libCensus()
 	as := freeAddrs(4)
 	h.real = map[string]string{}
 	h.canon = map[string]string{}
@@ -615,6 +697,28 @@ func (h *hist) run() {
 				h.rec.Emit("RR%d", runClass(err))
 				close(h.runDone)
 			}()
+			if strings.HasPrefix(s.During, "probe-") && !h.stopIssued {
+				// the context is cancelled (or Stop arrives) INSIDE Run's own boot: 25 ms after the first server's
+				// ListenAndServe was entered, while the readiness probe waits for its first tick
+				deadline := time.Now().Add(2 * time.Second)
+				for time.Now().Before(deadline) {
+					h.mu.Lock()
+					started := len(h.servers) > 0 && h.servers[0].lasCall.Load()
+					h.mu.Unlock()
+					if started {
+						break
+					}
+					time.Sleep(200 * time.Microsecond)
+				}
+				time.Sleep(25 * time.Millisecond)
+				h.stopIssued = true
+				if s.During == "probe-stop" {
+					h.doStop()
+				} else {
+					h.rec.Emit("XX")
+					cancel()
+				}
+			}
 			if h.stopIssued {
 				if !waitCh(h.runDone, 10*time.Second) {
 					hung = true
@@ -623,6 +727,40 @@ func (h *hist) run() {
 				h.waitState(8*time.Second, func(st string) bool { return st != "New" && st != "Booting" })
 			}
 			h.snapshot(true)
+		case "busyrun":
+			// Run's own boot on an address a foreign process holds: the initial configuration is A3
+			if !h.runStarted {
+				c := h.cfgs[h.curIdx]
+				c.Addr = "A3"
+				k := h.intern(c)
+				h.curIdx, h.prevIdx = k, k
+				h.lastDelivered.Store(int64(k))
+				h.initIdx = k
+				h.next.Store(strconv.Itoa(k))
+				var err error
+				h.runner, err = httpserver.NewRunner(httpserver.WithConfigCallback(func() (*httpserver.Config, error) {
+					if h.cbCalls.Load() == 1 { // this runner's initial load
+						h.cbCalls.Add(1)
+						return h.realCfg(h.cfgs[k]), nil
+					}
+					return h.callback()
+				}), httpserver.WithLogHandler(h.ph))
+				if err != nil {
+					emitLine("HERR\t%s\tNewRunner: %v", h.sc.Name, err)
+					return
+				}
+				h.runStarted = true
+				h.rec.Emit("RC")
+				go func() {
+					err := h.runner.Run(ctx)
+					h.rec.Emit("RR%d", runClass(err))
+					close(h.runDone)
+				}()
+				if !waitCh(h.runDone, 10*time.Second) {
+					hung = true
+				}
+				h.snapshot(true)
+			}
 		case "fbind":
 			a := "A3"
 			if _, ok := h.foreign[a]; !ok {
@@ -734,6 +872,37 @@ func (h *hist) run() {
 				} else {
 					h.parksMiss++
 					p.Release()
+				}
+			}
+			if p == nil && strings.HasPrefix(s.During, "probe-") {
+				// no log record lies inside the readiness probe's wait: act 25 ms after the NEW server's ListenAndServe was
+				// entered, i.e. while it listens and the probe waits for its first 100 ms tick
+				deadline := time.Now().Add(2 * time.Second)
+				for time.Now().Before(deadline) {
+					h.mu.Lock()
+					started := len(h.servers) > nSrvBefore && h.servers[len(h.servers)-1].lasCall.Load()
+					h.mu.Unlock()
+					if started {
+						break
+					}
+					select {
+					case <-d:
+						deadline = time.Now()
+					default:
+					}
+					time.Sleep(200 * time.Microsecond)
+				}
+				select {
+				case <-d: // the reload did not boot anything (no-op or failed early)
+				default:
+					time.Sleep(25 * time.Millisecond)
+					h.stopIssued, interfered = true, true
+					if s.During == "probe-stop" {
+						h.doStop()
+					} else {
+						h.rec.Emit("XX")
+						cancel()
+					}
 				}
 			}
 			if !waitCh(d, 12*time.Second) {
@@ -884,9 +1053,9 @@ func (h *hist) run() {
 		emitLine("HENV\t%s\t%s\t%s", h.sc.Name, h.envNoise, js)
 		return
 	}
-	emitLine("H\t%s\t%s\t%d\t%s", h.sc.Name, strings.Join(encs, "|"), 0, strings.Join(h.rec.Events(), " "))
-	emitLine("HS\t%s\tkind=%s parks_hit=%d parks_missed=%d quiesced=%d servers=%d events=%d port_noise=%d\t%s", h.sc.Name, h.sc.Kind,
-		h.parksHit, h.parksMiss, h.quiesced, len(h.servers), len(h.rec.Events()), h.portNoise, js)
+	emitLine("H\t%s\t%s\t%d\t%s", h.sc.Name, strings.Join(encs, "|"), h.initIdx, strings.Join(h.rec.Events(), " "))
+	emitLine("HS\t%s\tkind=%s parks_hit=%d parks_missed=%d quiesced=%d servers=%d events=%d port_noise=%d census_obs=%d\t%s", h.sc.Name, h.sc.Kind,
+		h.parksHit, h.parksMiss, h.quiesced, len(h.servers), len(h.rec.Events()), h.portNoise, h.censusObs, js)
 	for _, p := range h.props {
 		emitLine("PROP\t%s\t%s", h.sc.Name, p)
 	}
@@ -914,6 +1083,17 @@ func fixedScripts() []hscript {
 		{Name: "cancel-before-run", Steps: []hstep{can, run}},
 		{Name: "unchanged", Steps: []hstep{run, rl("same"), rl("perm"), stop}},
 		{Name: "each-field", Steps: []hstep{run, rl("addr"), rl("timeout"), rl("routes"), rl("drain"), rl("idle"), rl("write"), can}},
+		{Name: "cancel-inside-run-boot", Steps: []hstep{{Op: "run", During: "probe-cancel"}}},
+		{Name: "stop-inside-run-boot", Steps: []hstep{{Op: "run", During: "probe-stop"}}},
+		{Name: "cancel-before-run-then-reloads", Steps: []hstep{can, run, rl("addr"), rl("same")}},
+		{Name: "boot-fails-on-busy-address", Steps: []hstep{{Op: "fbind"}, {Op: "busyrun"}, rl("same"), stop}},
+		{Name: "many-restarts", Steps: []hstep{run, rl("addr"), rl("routes"), rl("addr"), rl("timeout"), rl("swap"), rl("addr"), rl("zeroto"), rl("routes"), stop}},
+		{Name: "restarts-then-failed-boot", Steps: []hstep{run, rl("addr"), rl("routes"), rl("busy"), rl("same"), {Op: "ffree"}, can}},
+		{Name: "stop-in-probe-window", Steps: []hstep{run, {Op: "reload", Cfg: "routes", During: "probe-stop"}}},
+		{Name: "stop-in-probe-window-addr", Steps: []hstep{run, rl("timeout"), {Op: "reload", Cfg: "addr", During: "probe-stop"}}},
+		{Name: "cancel-in-probe-window", Steps: []hstep{run, {Op: "reload", Cfg: "addr", During: "probe-cancel"}}},
+		{Name: "swap-pairing", Steps: []hstep{run, rl("swap"), rl("same"), rl("swap"), rl("perm"), stop}},
+		{Name: "zero-timeouts", Steps: []hstep{run, rl("zeroto"), rl("same"), rl("zeroone"), rl("zeroto"), can}},
 		{Name: "repath-back", Steps: []hstep{run, rl("repath"), rl("same"), rl("back"), rl("routes"), rl("routes"), rl("routes"), stop}},
 		{Name: "cb-error", Steps: []hstep{run, rl("err"), rl("addr"), stop}},
 		{Name: "cb-nil", Steps: []hstep{run, rl("same"), rl("nil"), rl("same"), can}},
@@ -955,7 +1135,8 @@ func randomScript(r *prng.R, i int) hscript {
 	if r.Chance(1, 3) {
 		s.Kind = "fake"
 	}
-	kinds := []string{"same", "perm", "addr", "routes", "repath", "timeout", "drain", "idle", "write", "back", "err", "nil", "busy", "addr", "routes", "same"}
+	kinds := []string{"same", "perm", "addr", "routes", "repath", "timeout", "drain", "idle", "write", "back", "err", "nil", "busy", "addr", "routes", "same",
+		"swap", "zeroto", "zeroone", "swap"}
 	switch r.Intn(8) {
 	case 0:
 		s.Steps = append(s.Steps, hstep{Op: "stop"})
@@ -975,6 +1156,9 @@ func randomScript(r *prng.R, i int) hscript {
 			if s.Kind == "fake" && st.During == "slowstop" {
 				st.During = "stop"
 			}
+		}
+		if st.Park == "" && r.Chance(1, 8) {
+			st.During = prng.Pick(r, []string{"probe-stop", "probe-cancel"})
 		}
 		s.Steps = append(s.Steps, st)
 		if st.Cfg == "busy" && r.Bool() {
